@@ -129,6 +129,9 @@ func FamilyOf(prop string, seed, i uint64) string {
 		if i%16 == 5 {
 			return "retrymanual" // errors returned by RetryClient.Connect itself (refused CONNACK)
 		}
+		if i%16 == 9 {
+			return "keepalive" // which sentinel KeepAlive's error carries (ErrPingTimeout vs. the context's error)
+		}
 		return "base"
 	case "C12":
 		if i%3 == 0 {
@@ -451,6 +454,9 @@ func genReconn(r *Rng, prop string) *Scenario {
 			f.AtUs = r.between(0, lastOp+2*maxBackoff)
 		case "connackRefuse":
 			f.Code = []byte{1, 2, 3, 4, 5, 1, 2, 3, 4, 5, 6, 0x80, 0x84, 0xFF}[r.IntN(14)]
+			if r.chance(0.3) {
+				f.Prefix = 1 // the peer refuses but does not close
+			}
 		}
 		sc.Faults = append(sc.Faults, f)
 	}
@@ -641,6 +647,26 @@ func genReconn(r *Rng, prop string) *Scenario {
 		lastOp = tA
 	}
 
+	if prop == "C09" && r.chance(0.03) {
+		// aimed: a long run of consecutive failures (dial errors and refusals),
+		// enough for any arithmetic on the back-off to leave its range, then success
+		cfg.Yields, cfg.EarlyReply = nil, false
+		cfg.ReconnBaseUs = r.pickI(1, 10, 1000)
+		cfg.ReconnMaxUs = cfg.ReconnBaseUs * r.pickI(2, 3, 8)
+		maxBackoff = cfg.ReconnMaxUs
+		sc.Ops = sc.Ops[:1]
+		sc.Ops[0].CtxTimeoutUs = 0
+		sc.Faults = nil
+		nfail := int(r.between(50, 80))
+		for k := 1; k <= nfail; k++ {
+			if r.chance(0.8) {
+				sc.Faults = append(sc.Faults, Fault{Kind: "dialErr", Conn: k})
+			} else {
+				sc.Faults = append(sc.Faults, Fault{Kind: "connackRefuse", Conn: k, Code: byte(r.between(1, 5))})
+			}
+		}
+		lastOp = connectAt + int64(nfail)*(cfg.ReconnMaxUs+cfg.DialLatUs+cfg.LatC2BUs+cfg.LatB2CUs+50)
+	}
 	if prop == "C09" && r.chance(0.04) {
 		// aimed: on a healthy, quiet connection the application disconnects through
 		// the BaseClient it got from Client(), below the reconnecting wrapper: a
